@@ -166,7 +166,7 @@ def _execute(sc, sim, out):
             except Exception as e:
                 out.violate('table', '%s: returned table cannot be read (%s: %s)' % (what, type(e).__name__, e))
                 break
-            files = sorted(os.path.basename(x) for x in glob.glob(os.path.join(d, 'convolved', '*')))
+            files = sorted(os.path.basename(x) for x in glob.glob(os.path.join(d, 'convolved', 'MO*.fits')) + glob.glob(os.path.join(d, 'convolved', 'MO*.fits.gz')))
             if sorted(fn + '.fits' for _, fn in named) != files:
                 out.violate('files', '%s: table names %s but convolved/ holds %s' % (what, sorted(fn for _, fn in named), files))
                 break
